@@ -11,8 +11,11 @@ def lifecycle_clauses(case, d):
     ids = set(S.all_ids(case))
     state = {i: "idle" for i in ids}
     enters = {i: 0 for i in ids}
+    doubled = set()
     for e in d["trace"]:
         i, k = e[0], e[1]
+        if i in doubled and k in S.LIFE:
+            continue        # two generators of this doer run at once; their events interleave, nothing more to check
         if k == "recurBad":
             bad.append("recur-tyme-differs-from-tymth")
             k = "recur"
@@ -25,7 +28,11 @@ def lifecycle_clauses(case, d):
         if k == "enter":
             enters[i] += 1
             nxt = "live" if s == "idle" else None
-            if s != "idle":
+            if s == "live":
+                bad.append("entered-again-while-still-running")
+                doubled.add(i)
+                nxt = "idle"
+            elif s != "idle":
                 bad.append("enter-while-not-exited")
         elif k == "recur":
             nxt = "live" if s == "live" else None
@@ -46,7 +53,7 @@ def lifecycle_clauses(case, d):
                 bad.append("exit-twice-or-without-enter")
         state[i] = nxt if nxt is not None else "bad"
     for i, s in state.items():
-        if s not in ("idle",):
+        if s not in ("idle",) and i not in doubled:
             bad.append("not-exited-when-do-returned" if s in ("live", "closing") else "malformed")
     if d["raised"].startswith("other:") or d["raised"] == "kbint":
         bad.append("unexpected-exception-from-do:" + d["raised"].split(":")[-1])
@@ -71,11 +78,14 @@ class C01(S.SchedCheck):
     design_ref = "DESIGN.md §5 C01, Appendix A.1"
     technique = ("Lean 4 theorems over an executable model of Doist/DoDoer/Doer (nested generator scheduler, deque+marker as zipper), "
                  "tied to hio.base.doing by a seeded differential run of the compiled model; lifecycle automaton as independent oracle on the real trace")
-    level_text = ('Lean theorems, for every time type, every program (forest of doers incl. nested DoDoers with own extend pools), every tock/start/limit and every fuel: lifecycle_wf (strict automaton enter.recur*.(clean|cease|abort).exit per doer id, restartable after exit, final state idle; extend and remove allowed; hypotheses: all ids of the program distinct, no pool doer removes itself, no script raises KeyboardInterrupt), lifecycle_wf_weak (same without the KeyboardInterrupt hypothesis for the automaton that also accepts exit straight from running), lifecycle_wf_partial / lifecycle_wf_weak_partial (no-extend programs, only the entered ids distinct). The strict property is proved to FAIL with KeyboardInterrupt (lifecycle_kbint_skips_abort, decide) = known finding C01-K1 (pre-finding F01). All exit paths named by the property (completion, limit, raise at any step, removal, failing enter in do() and inside extend(), KeyboardInterrupt) are cases of the one universally quantified theorem. The hand-written model is tied to hio.base.doing by the differential run (string equality of the whole trace incl. observed tymes, flags, done, tyme, raised, doers).')
+    level_text = ('Lean theorems, for every time type, every program (forest of doers incl. nested DoDoers with own extend pools), every tock/start/limit and every fuel: lifecycle_wf (strict automaton enter.recur*.(clean|cease|abort).exit per doer id, restartable after exit, final state idle; extend and remove allowed; hypotheses: all ids of the program distinct, no pool doer removes itself, no script raises KeyboardInterrupt), lifecycle_wf_weak (same without the KeyboardInterrupt hypothesis for the automaton that also accepts exit straight from running), lifecycle_wf_partial / lifecycle_wf_weak_partial (no-extend programs, only the entered ids distinct). The strict property is proved to FAIL with KeyboardInterrupt (lifecycle_kbint_skips_abort, decide) = known finding C01-K1 (pre-finding F01). The hypothesis that no pool doer removes itself is necessary: lifecycle_fails_when_pool_doer_removes_itself (decide) = known finding C01-K2, reproduced on the real code (a self-removed doer keeps running and a later extend() enters it a second time). All exit paths named by the property (completion, limit, raise at any step, removal, failing enter in do() and inside extend(), KeyboardInterrupt) are cases of the one universally quantified theorem. The hand-written model is tied to hio.base.doing by the differential run (string equality of the whole trace incl. observed tymes, flags, done, tyme, raised, doers).')
     level_note = ('Trusted: Lean kernel + propext/Classical.choice/Quot.sound; that the sampled correspondence (five Python doer shapes, random forests + regression corpus + exhaustive single-fault scope in thorough) is representative; F04 (enter failing inside extend) and F05/F06 (duplicates) were repaired on fix/sched and the model follows the repaired code; KeyboardInterrupt inside enter and CPython GC finalisation are not modelled (the adapter reports GC-only exits as `late`).')
     rule = ("random doer forests (depth<=3, <=~12 doers, scripts<=6 steps, five Python doer shapes, yields None/0/fractions and multiples of the tock, "
             "DoDoer tock 0/non-zero/always, per-scheduler extend pools, extend/remove ops, raise/kbint/failing enter planted per step, limits incl. 0/negative/non-multiples) "
             "+ regression corpus (F01-F07) + thorough: exhaustive single-fault scope.  non-trivial = >=12 events and (do() raised or a forced close / remove / extend happened); distinct by request line")
+
+    def corpus(self):
+        return list(S.CORPUS) + list(S.CORPUS_SELFRM)
 
     def exhaustive(self, tier):
         if tier != "thorough":
@@ -85,29 +95,49 @@ class C01(S.SchedCheck):
     def oracle(self, case, obs):
         return lifecycle_clauses(case, obs.d)
 
+    profiles = ("mixed", "ops", "faults", "time", "selfrm")
+
     def known(self, case, obs, clauses):
         # C01-K1 (pre-finding F01): KeyboardInterrupt raised by a doer -> neither clean, cease nor abort runs for it
-        # and for the DoDoers above it; everything else must be well formed.
-        if clauses != ["missing-terminal"]:
+        # and for the DoDoers above it.
+        # C01-K2: a pool doer removed ITSELF while running (it leaves .doers but keeps running, as documented) and is
+        # then extended again: extend() enters it a second time while its first generator is still scheduled.
+        # Everything else must be well formed.
+        MT, EA = "missing-terminal", "entered-again-while-still-running"
+        if not clauses or not set(clauses) <= {MT, EA}:
             return None
         spec, par, pools, kids = S.spec_index(case)
         d = obs.d
-        hist = {}
-        for e in d["trace"]:
-            if e[1] in S.LIFE:
-                hist.setdefault(e[0], []).append(e[1])
-        for i, h in hist.items():
-            # cut into incarnations
-            inc, cur = [], []
-            for k in h:
-                cur.append(k)
-                if k == "exit":
-                    inc.append(cur)
-                    cur = []
-            for c in inc:
-                if not any(k in TERM for k in c):
-                    if not (i in spec and S.has_out(spec[i], "kbint")):
-                        return None
+        if MT in clauses:
+            hist = {}
+            for e in d["trace"]:
+                if e[1] in S.LIFE:
+                    hist.setdefault(e[0], []).append(e[1])
+            for i, h in hist.items():
+                inc, cur = [], []
+                for k in h:
+                    cur.append(k)
+                    if k == "exit":
+                        inc.append(cur)
+                        cur = []
+                for c in inc:
+                    if not any(k in TERM for k in c) and c.count("enter") == 1:
+                        if not (i in spec and S.has_out(spec[i], "kbint")):
+                            return None
+        if EA in clauses:
+            live = set()
+            for e in d["trace"]:
+                i, k = e[0], e[1]
+                if k == "enter":
+                    if i in live:
+                        s = spec.get(i)
+                        selfrm = s is not None and s[0] == "leaf" and any(op[0] == "remove" and i in op[1] for ops, _ in s[4] for op in ops)
+                        if not (selfrm and i in pools.get(par[i], ())):
+                            return None
+                    live.add(i)
+                elif k == "exit":
+                    live.discard(i)
+            return "C01-K2"
         return "C01-K1"
 
 
